@@ -363,6 +363,62 @@ fn eval(name: &str, a: &[Value]) -> Value {
                 Err(e) => json!({"passes": false, "why": format!("validate: {:?}", std::mem::discriminant(&e)), "document": text}),
             }
         }
+        // `update` of a test case that failed on its exit code: the real parser, update generator and validate on a real document.
+        // {"stdout": bytes, "stderr": bytes, "exit": n, "expected": n|null, "stream": null|"stdout"|"stderr"|"combined", "escaper", "cram": bool,
+        //  "existing": [expectation lines]}
+        "update_exit_code" => {
+            use scrut::generators::generator::UpdateGenerator;
+            use scrut::parsers::parser::Parser;
+            let w = &a[0];
+            let cram = w["cram"].as_bool().unwrap_or(false);
+            let output = scrut::output::Output { stdout: bytes_arg(&w["stdout"]).into(), stderr: bytes_arg(&w["stderr"]).into(),
+                exit_code: scrut::output::ExitStatus::Code(w["exit"].as_i64().unwrap_or(0) as i32) };
+            let existing: Vec<String> = w["existing"].as_array().map(|v| v.iter().map(str_arg).collect()).unwrap_or_default();
+            let expected_line = w["expected"].as_i64().map(|e| format!("[{}]", e));
+            let mut doc = String::new();
+            if cram {
+                doc.push_str("title\n  $ cmd\n");
+                for l in &existing { doc.push_str(&format!("  {}\n", l)); }
+                if let Some(l) = &expected_line { doc.push_str(&format!("  {}\n", l)); }
+            } else {
+                let cfg = match w["stream"].as_str() { Some(s) => format!(" {{output_stream: {}}}", s), None => "".to_string() };
+                doc.push_str(&format!("# title\n\n```scrut{}\n$ cmd\n", cfg));
+                for l in &existing { doc.push_str(&format!("{}\n", l)); }
+                if let Some(l) = &expected_line { doc.push_str(&format!("{}\n", l)); }
+                doc.push_str("```\n");
+            }
+            let maker = || std::sync::Arc::new(scrut::expectation::ExpectationMaker::new(scrut::rules::registry::RuleRegistry::default()));
+            let parse = |text: &str| if cram { scrut::parsers::cram::CramParser::new(maker(), 2).parse(text) }
+                                     else { scrut::parsers::markdown::MarkdownParser::new(maker(), &["scrut"], None).parse(text) };
+            let tests = match parse(&doc) { Ok((_c, t)) => t, Err(e) => return json!({"passes": false, "why": format!("original does not parse: {:#}", e), "document": doc}) };
+            if tests.len() != 1 { return json!({"passes": false, "why": "original: not one test", "document": doc}); }
+            let mut testcase = tests[0].clone();
+            if cram {
+                if let Some(s) = w["stream"].as_str() {
+                    testcase.config.output_stream = Some(match s { "stderr" => scrut::config::OutputStreamControl::Stderr,
+                        "combined" => scrut::config::OutputStreamControl::Combined, _ => scrut::config::OutputStreamControl::Stdout });
+                }
+            }
+            let config = testcase.config.clone();
+            let result = testcase.validate(&output);
+            let kind = match &result { Ok(()) => "Ok".to_string(), Err(e) => format!("{:?}", std::mem::discriminant(e)) };
+            if result.is_ok() { return json!({"passes": true, "first": kind, "document": "(the test passes: nothing is rewritten)"}); }
+            let outcome = scrut::outcome::Outcome { location: None, output: output.clone(), testcase,
+                format: if cram { scrut::parsers::parser::ParserType::Cram } else { scrut::parsers::parser::ParserType::Markdown },
+                escaping: escaper(&w["escaper"]), result };
+            let updated = if cram { scrut::generators::cram::CramUpdateGenerator::default().generate_update(&doc, &[&outcome]) }
+                          else { scrut::generators::markdown::MarkdownUpdateGenerator::default().generate_update(&doc, &[&outcome]) };
+            let text = match updated { Ok(t) => t, Err(e) => return json!({"passes": false, "first": kind, "why": format!("update: {:#}", e)}) };
+            let tests = match parse(&text) { Ok((_c, t)) => t, Err(e) => return json!({"passes": false, "first": kind, "why": format!("parse: {:#}", e), "document": text}) };
+            if tests.len() != 1 { return json!({"passes": false, "first": kind, "why": format!("{} test cases", tests.len()), "document": text}); }
+            if tests[0].shell_expression != "cmd" { return json!({"passes": false, "first": kind, "why": "shell expression changed", "document": text}); }
+            let mut again = tests[0].clone();
+            if cram { again.config = config; }
+            match again.validate(&output) {
+                Ok(()) => json!({"passes": true, "first": kind, "document": text}),
+                Err(e) => json!({"passes": false, "first": kind, "why": format!("validate: {:?}", e).chars().take(200).collect::<String>(), "document": text}),
+            }
+        }
         "parse_expectation" => {
             let maker = scrut::expectation::ExpectationMaker::new(scrut::rules::registry::RuleRegistry::default());
             match maker.parse(&str_arg(&a[0])) {
@@ -509,12 +565,24 @@ fn eval(name: &str, a: &[Value]) -> Value {
                 Some(v) => Some(std::time::Duration::from_millis(v.as_u64().unwrap_or(10_000))),
                 None => Some(std::time::Duration::from_secs(10)),
             };
+            // optional 3rd argument: {"env": {..} the test case's variables, "parent_env": {..} set in this process first}
+            let mut parent_keys = vec![];
+            if let Some(extra) = a.get(2).and_then(|v| v.as_object()) {
+                if let Some(env) = extra.get("env").and_then(|v| v.as_object()) {
+                    for (k, v) in env { config.environment.insert(k.clone(), v.as_str().unwrap_or("").to_string()); }
+                }
+                if let Some(env) = extra.get("parent_env").and_then(|v| v.as_object()) {
+                    for (k, v) in env { std::env::set_var(k, v.as_str().unwrap_or("")); parent_keys.push(k.clone()); }
+                }
+            }
             let testcase = scrut::testcase::TestCase { title: "t".into(), shell_expression: str_arg(&a[0]), expectations: vec![],
                 exit_code: None, line_number: 1, config };
             let out = runner.run("exec1", &testcase, &context);
+            for k in parent_keys { std::env::remove_var(k); }
             let _ = std::fs::remove_dir_all(&tmp);
             match out {
-                Ok(o) => { let so: Vec<u8> = (&o.stdout).into(); json!({"stdout": so, "status": o.exit_code.to_string()}) }
+                Ok(o) => { let so: Vec<u8> = (&o.stdout).into(); let se: Vec<u8> = (&o.stderr).into();
+                           json!({"stdout": so, "stderr": se, "status": o.exit_code.to_string()}) }
                 Err(e) => json!({"error": e.to_string()}),
             }
         }
@@ -607,6 +675,17 @@ fn eval(name: &str, a: &[Value]) -> Value {
             json!({"json": show(scrut::renderers::structured::JsonRenderer::default().render(&[&outcome])),
                    "yaml": show(scrut::renderers::structured::YamlRenderer::default().render(&[&outcome]))})
         }
+        // serde_yaml::to_string(TestCaseConfig) → serde_yaml::from_str: equal?
+        "tcc_yaml_roundtrip" => {
+            let config = crate::cfg::tcc_from(&a[0]);
+            match serde_yaml::to_string(&config) {
+                Err(e) => json!({"equal": false, "rendered": format!("error: {:#}", e)}),
+                Ok(text) => match serde_yaml::from_str::<scrut::config::TestCaseConfig>(&text) {
+                    Ok(back) => json!({"equal": back == config, "rendered": text, "parsed": crate::cfg::tcc_to(&back)}),
+                    Err(e) => json!({"equal": false, "rendered": text, "parsed": format!("error: {:#}", e)}),
+                },
+            }
+        }
         // TestCase::render_output(bytes) under keep_crlf / strip_ansi_escaping (null | bool each)
         "render_output" => {
             let mut config = scrut::config::TestCaseConfig::empty();
@@ -632,6 +711,7 @@ fn eval(name: &str, a: &[Value]) -> Value {
             let _ = std::fs::create_dir_all(&tmp);
             let mut doc = scrut::config::DocumentConfig::default_cram();
             doc.defaults.skip_document_code = w["default_skip"].as_i64().map(|x| x as i32);
+            if let Some(ms) = w.get("total_timeout_ms").and_then(|v| v.as_u64()) { doc.total_timeout = Some(std::time::Duration::from_millis(ms)); }
             let context = scrut::executors::context::ContextBuilder::default()
                 .work_directory(tmp.clone()).temp_directory(tmp.clone()).file(std::path::PathBuf::from("file.t")).config(doc).build().unwrap();
             let res = scrut::executors::bash_script_executor::BashScriptExecutor::default().execute_all(&refs, &context);
@@ -639,6 +719,7 @@ fn eval(name: &str, a: &[Value]) -> Value {
             match res {
                 Ok(outs) => json!({"Ok": outs.iter().map(|o| format!("{:?}", o.exit_code)).collect::<Vec<_>>()}),
                 Err(scrut::executors::error::ExecutionError::Skipped(i)) => json!({"Err": format!("Skipped({})", i)}),
+                Err(scrut::executors::error::ExecutionError::Timeout(k, _)) => json!({"Err": format!("Timeout({:?})", k)}),
                 Err(e) => json!({"Err": format!("{:#}", e).chars().take(120).collect::<String>()}),
             }
         }
